@@ -10,6 +10,7 @@ VARIABLES tid, l
 tvars == <<vars, tid, l>>
 Ev == Traces[tid][l]
 TraceInit == /\ tid \in 1..N /\ l = 2 /\ src = Traces[tid][1].src /\ partition = [d \in Defs |-> Traces[tid][1].partition[d]]
+             /\ ending = Traces[tid][1].ending
              /\ stage = "configured" /\ client = <<>>
 T_Generated == /\ l <= Len(Traces[tid]) /\ Ev.e = "generated" /\ l' = l + 1 /\ tid' = tid /\ Generate
                /\ \A p \in Parts : client'[p] = Ev.same[p]
